@@ -91,7 +91,11 @@ def write_corpus(pid, good_witnesses, merge_ids):
                 seen.add(k)
                 ws.append(w)
         if ws:
-            cur[cid] = ws[:CORPUS_PER_COND]
+            # evenly spaced over the exploration order rather than the first few: later paths are the rarer input classes
+            if len(ws) > CORPUS_PER_COND:
+                step = (len(ws) - 1) / (CORPUS_PER_COND - 1)
+                ws = [ws[round(k * step)] for k in range(CORPUS_PER_COND)]
+            cur[cid] = ws
     json.dump(cur, open(path, "w"), sort_keys=True, separators=(",", ":"))
     return sum(len(v) for v in cur.values())
 
